@@ -733,6 +733,21 @@ class FunctionLowerer:
         stmts = body.get("inner", [])
         # every statement of the try body is guarded by `no exception pending`
         for st in stmts:
+            if st.get("kind") == "DeclStmt":
+                # declarations of the try block stay visible to its later statements: declare
+                # first, initialise under the `no exception pending` guard
+                for v in st.get("inner", []):
+                    if v.get("kind") != "VarDecl":
+                        continue
+                    ct = self.T.ctype(v["type"], where=v.get("name"))
+                    init = [c for c in v.get("inner", []) if isinstance(c, dict) and c.get("kind")]
+                    s += self.line(v) + self.ind(d + 1) + "%s %s%s;\n" % (ct, v["name"], "" if init else self.default_init(ct))
+                    if init:
+                        t = self.newtmp("v")
+                        s += self.ind(d + 1) + "if (__exc == 0)\n" + self.ind(d + 1) + "{\n"
+                        s += self.ind(d + 2) + "%s %s = %s;\n" % (ct, t, self.expr(init[0]))
+                        s += self.ind(d + 2) + "if (__exc == 0) %s = %s;\n" % (v["name"], t) + self.ind(d + 1) + "}\n"
+                continue
             s += self.ind(d + 1) + "if (__exc == 0)\n" + self.try_body_stmt(st, d + 1)
         first = True
         for c in catches:
@@ -741,9 +756,15 @@ class FunctionLowerer:
                 self.bad(c, "catch shape")
             var, hbody = ci
             ty = (var.get("type") or {}).get("qualType", "") if var else ""
-            if "out_of_range" not in ty:
-                self.bad(c, "only catch (std::out_of_range &) is in the subset")
-            s += self.ind(d + 1) + ("if" if first else "else if") + " (__exc == EXC_OUT_OF_RANGE)\n"
+            if "out_of_range" in ty:
+                test = "__exc == EXC_OUT_OF_RANGE"
+            elif "invalid_argument" in ty:
+                test = "__exc == EXC_INVALID_ARGUMENT"
+            elif "logic_error" in ty or re.search(r"\bstd::exception\b", ty) or not var:
+                test = "__exc != 0"      # both are std::logic_error; catch (...) / std::exception take everything
+            else:
+                self.bad(c, "catch of %s is not in the subset" % ty)
+            s += self.ind(d + 1) + ("if" if first else "else if") + " (%s)\n" % test
             s += self.ind(d + 1) + "{\n" + self.ind(d + 2) + "__exc = 0;\n" + self.stmt(hbody, d + 2) + self.ind(d + 1) + "}\n"
             first = False
         s += self.ind(d + 1) + "NO_UNCAUGHT_EXCEPTION();\n"
@@ -796,9 +817,9 @@ class FunctionLowerer:
         vname = loopvar["name"]
         if self.T.is_lref(loopvar["type"]) and not self.T.is_const_lref(loopvar["type"]):
             self.ptr_vars.add(loopvar["id"])
-            s += I2 + "%s *%s = %s_at(%s, %s);\n" % (vct, vname, rct, rv, iv)
+            s += I2 + "%s *%s = &VEC_AT(%s, %s, %s);\n" % (vct, vname, rct, rv, iv)
         else:
-            s += I2 + "%s %s = *%s_at(%s, %s);\n" % (vct, vname, rct, rv, iv)
+            s += I2 + "%s %s = VEC_AT(%s, %s, %s);\n" % (vct, vname, rct, rv, iv)
         s += self.block(body, d + 2)
         s += I1 + "}\n" + I + "}\n"
         return s
@@ -1346,6 +1367,7 @@ class FunctionLowerer:
             return "((%s){%s, %s})" % (ct, self.expr(args[0]), self.expr(args[1]))
         if name == "iota" and len(args) == 3:
             it = self.T.ctype(args[0]["type"])
+            self.T.used.setdefault("iota_" + it, "IOTA_DECL(%s)" % it)
             return "%s_iota(%s, %s, %s)" % (it, self.expr(args[0]), self.expr(args[1]), self.expr(args[2]))
         if name == "copy" and len(args) == 3:
             bi = _strip_transparent(_strip_casts(args[2]))
